@@ -214,7 +214,8 @@ def class_key(case: Dict[str, Any]) -> str:
     return "plats%d|sel%s|loop%d|k0=%s|cyc%s|uv%d|ovr%d|repl%d|bp%d|envp%d" % (
         len(f["platforms"]), "D" if case["platform"] is None else "P", int(case["with_loop"]),
         "0" if case["k0"] == 0 else ("<10" if case["k0"] < 10 else ">=10"),
-        "".join(("U" if c["update"] else "n") + str(c["k_more"]) for c in case["cycles"]),
+        "%d%s%s" % (len(case["cycles"]), "U" if any(c["update"] for c in case["cycles"]) else "n",
+                    "+k" if any(c["k_more"] for c in case["cycles"]) else ""),
         len(case["uservars"]), int(any("override" in c for c in comps)),
         int(any("replicate" in c.get("workflowAttributes", {}) for c in comps)),
         int("blueprint" in f), int(len(f.get("environments", {})) > 1))
